@@ -87,6 +87,20 @@ def run(tier, vd):
     ev = list(read_ndjson(files[0]))
     vd.cov["samples"].append({"kind": "rows", "events": [e for e in ev if e.get("ev") == "row"][10:13]})
 
+    # an interface with SLAAC switched on and routers that also send advertisements no router should send (the garbage
+    # world's interfaces leave SLAAC off): any panic of a poll is this property's
+    sd = seed()
+    sfz = []
+    for k in range(2 if tier == "quick" else 6):
+        tf = os.path.join(OUT, "traces", "c03.slaac.%d.ndjson" % k)
+        run_harness(exe, ["slaac-random", "--seed", sd * 100 + 40 + k, "--runs", 300 if tier == "quick" else 1500, "--out", tf])
+        sfz.append(tf)
+    rs7 = validate_traces("SlaacTrace", sfz, parallel=8)
+    vd.add_validation(rs7)
+    rs7b = dict(rs7)
+    rs7b["viol"] = [v for v in rs7["viol"] if v["rule"] == "PANIC"]
+    report_viols(vd, "C03", rs7b, {"world": "slaac", "seed": sd}, lambda v: {"rule": v["rule"], "world": "slaac"}, lambda v: "slaac %s %s" % (v["rule"], v["p"]))
+
     def mut(e):
         if e.get("ev") == "row":
             e["npanic"] = 1
@@ -110,6 +124,24 @@ def run(tier, vd):
 
 
 def replay(obj, vd):
+    if obj.get("ctx", {}).get("world") == "slaac":
+        from checks import c13
+        obj["property"] = "C03"
+        ev0 = obj["events"][0]
+        exe = build_harness()
+        tf = os.path.join(OUT, "traces", "c03.replay.ndjson")
+        run_harness(exe, ["slaac-random", "--seed", ev0["seed"], "--runs", ev0["run"] + 1, "--out", tf])
+        runs = split_runs(tf)
+        with open(tf, "w") as f:
+            for e in runs[ev0["run"]]:
+                f.write(json.dumps(e) + "\n")
+        res = validate_traces("SlaacTrace", [tf], parallel=1)
+        vd.add_validation(res)
+        res = dict(res)
+        res["viol"] = [v for v in res["viol"] if v["rule"] == "PANIC"]
+        report_viols(vd, "C03", res, obj["ctx"], lambda v: {"rule": v["rule"], "world": "slaac"})
+        vd.add_model("replay only", FakeTlc())
+        return
     ev = [e for e in obj["events"] if e.get("ev") in ("row", "hang")]
     exe = build_harness()
     files = []
